@@ -174,6 +174,16 @@ pub fn run(a: &Args) {
     st.notes.push(format!("futures dropped: {} in total, up to {} in one session; pending polls seen: {}", cx.total_dropped, cx.max_dropped, cx.total_pending));
     st.sample("async C 0 f:030000:K:0 f:030703:O:1 | N D0103 N D0000 N D0103 N D0703 N Z | p a0 p a1 p p a0 | 0110100".into());
     { let c2 = crate::conv::async_conversations("C19", a, &mut rng, &mut st, &mut out); st.distinct_nontrivial += c2.distinct.len() as u64; }
+    // the same promise on the WebSocket transport with a peer that is slow to read and a caller whose own short timeout drops read() again and
+    // again: every keep-alive handed over once, answered by exactly one message
+    { let iort = tokio::runtime::Builder::new_multi_thread().worker_threads(2).enable_all().build().unwrap();
+      for (compressed, us) in [(true, 150u64), (false, 900)] {
+        let n = if a.thorough() { 12_000 } else { 4_000 };
+        let (sent, handed, replies, others) = crate::c20::ws_keepalive_case_with(&iort, compressed, n, Some(us));
+        st.evaluations += sent as u64;
+        if handed != sent || replies != sent || others != 0 { st.fail(format!("[C19 websocket] read() dropped by a {us} us timeout again and again: {sent} keep-alives sent (among packets that are not keep-alives), {handed} handed to the caller, the peer received {replies} reply messages and {others} other messages"), format!("wskac {} {n} {us}", mode_tag(compressed))); }
+        st.notes.push(format!("websocket keep-alive burst with dropped reads ({} mode, {us} us): {sent} sent, {handed} handed over, {replies} replies seen by the peer", mode_tag(compressed)));
+      } }
     crate::net::report_unconsumed("C19", &mut st);
     out.finish(&st);
 }
